@@ -155,6 +155,24 @@ check("C16",
       "TLA+ spec (Store.tla) model-checked by TLC + TLC validation of recorded write/read/copy/round-trip histories of the real classes",
       "DESIGN.md C16")
 
+check("C18",
+      "TLC runs the greedy apportionment of blocks to chromosomes as a state machine (exact rational comparison; equals the "
+      "recursive function; terminates; total = request; every chromosome >= 1) and checks the partition clauses (every "
+      "marker in exactly one block, ordered and contiguous, inside its chromosome) for every layout of <=2 chromosomes x <=3 "
+      "markers over 4 positions and every admissible block total; the ExactTotal clause is checked in a separate run where "
+      "TLC exhibits the tied/clustered layouts that leave an equal-width bin empty. All these layouts, boundary-aligned "
+      "layouts (markers exactly on bin boundaries) and random clustered layouts are run through nhaploblk_chrom, haplobin, "
+      "haplobin_bounds, haplomat and through the OHV problem's _calc_haplomat/_calc_xmap/_calc_ohvmat (all chunk sizes) "
+      "and the OPV problem's latent function; TLC validates apportionment, the binning relation (boundary markers may "
+      "join either neighbour), bounds = runs of the labels, block value = genotype . effects over the block, surplus "
+      "blocks zero, conservation of the copy's total value, OHV/OPV = ploidy * sum over blocks of the best block value, "
+      "finiteness and the requested total.",
+      "Integer positions (handed over divided by 10), genotypes in {0,1}, integer effects; requests whose apportionment "
+      "exceeds a chromosome's marker count raise in the library and are outside the domain; the 'exactly the requested "
+      "total' clause is a listed known finding for empty equal-width bins.",
+      "TLA+ spec (Haplo.tla) model-checked by TLC + TLC validation of recorded executions of the real functions and problems",
+      "DESIGN.md C18")
+
 def build():
     checks = []
     for pid in sorted(CHECKS):
